@@ -53,10 +53,9 @@ ASSUMPTIONS = [
     "after a responder function raised, responders of that message not registered "
     "before it on its path are left open (the library abandons the dispatch of that "
     "message); the raising invocation counts, a fired one-shot stays spent",
-    "an action removed by an earlier action of the same run must not run for "
-    "SystemAction/StartUp/CmdPeriod (the library re-checks the registry); for "
-    "ServerAction.run and NotificationCenter.notify (snapshot iteration) and for "
-    "actions added during a run it is left open and counted",
+    "an action / listener removed by an earlier action of the same run (before "
+    "its own turn) must not run, for SystemAction/StartUp/CmdPeriod, ServerAction "
+    "and NotificationCenter alike; actions added during a run are left open",
     "CPython 3.12 sys.monitoring LINE events count parser steps",
 ]
 MIN_COUNTERS = {
